@@ -81,6 +81,7 @@ structure LbGood (kind : Kind) (n : Nat) (s : LbSt) (m : LbMon) : Prop where
   kind_eq : s.kind = kind
   n_eq : s.rr.n = n
   created : m.created = s.pending
+  results : m.results = s.results
   rrPicks : kind = .rr → m.picks.map (·.2) = ((List.range s.rr.next).map (· % n)).reverse
   hashPicks : kind = .hash → ∀ p ∈ m.picks, p.2 = verifHash s.hseed p.1 % n
 
@@ -95,15 +96,25 @@ theorem lbStep_good {kind : Kind} {n : Nat} (hn : 1 ≤ n) {s : LbSt} {m : LbMon
   cases op with
   | call req =>
     simp only [lbStep, List.foldl_cons, List.foldl_nil, monLbStep]
-    refine ⟨⟨g.ok, g.kind_eq, g.n_eq, ?_, g.rrPicks, g.hashPicks⟩, by omega⟩
+    refine ⟨⟨g.ok, g.kind_eq, g.n_eq, ?_, g.results, g.rrPicks, g.hashPicks⟩, by omega⟩
     simp [g.created]
+  | setResult b k =>
+    simp only [lbStep]
+    split
+    · rename_i hb
+      simp only [List.foldl_cons, List.foldl_nil, monLbStep]
+      refine ⟨⟨?_, g.kind_eq, g.n_eq, g.created, ?_, g.rrPicks, g.hashPicks⟩, by simp⟩
+      · simp only [g.n_eq] at hb
+        simp [LbMon.flag, g.ok, hb]
+      · simp [LbMon.flag, g.results]
+    · exact ⟨by simpa [monLbStep] using g, by simp⟩
   | drop id =>
     simp only [lbStep]
     cases hl : lookup id s.pending with
     | none => exact ⟨by simpa [monLbStep] using g, by simp⟩
     | some r =>
       simp only [List.foldl_cons, List.foldl_nil, monLbStep]
-      refine ⟨⟨g.ok, g.kind_eq, g.n_eq, ?_, g.rrPicks, g.hashPicks⟩, by omega⟩
+      refine ⟨⟨g.ok, g.kind_eq, g.n_eq, ?_, g.results, g.rrPicks, g.hashPicks⟩, by omega⟩
       simp [g.created]
   | poll id =>
     simp only [lbStep]
@@ -124,9 +135,10 @@ theorem lbStep_good {kind : Kind} {n : Nat} (hn : 1 ≤ n) {s : LbSt} {m : LbMon
           rw [List.range_succ, List.map_append, List.reverse_append, hp, hne]; rfl
         have hlt : s.rr.next % s.rr.n < n := by rw [hne]; exact Nat.mod_lt _ (by omega)
         have hspread := spreadOk_range n (s.rr.next + 1) hn _ hnew
-        refine ⟨⟨?_, rfl, hne, ?_, ?_, ?_⟩, by simp⟩
-        · simp [LbMon.flag, g.ok, hlt, g.created, hl, kindOk, hspread]
+        refine ⟨⟨?_, rfl, hne, ?_, ?_, ?_, ?_⟩, by simp⟩
+        · simp [LbMon.flag, g.ok, hlt, g.created, hl, kindOk, hspread, g.results]
         · simp [LbMon.flag, g.created]
+        · simp [LbMon.flag, g.results]
         · intro _; simpa [LbMon.flag] using hnew
         · intro h; cases h
       | hash =>
@@ -141,9 +153,10 @@ theorem lbStep_good {kind : Kind} {n : Nat} (hn : 1 ≤ n) {s : LbSt} {m : LbMon
           by_cases hpr : p.1 = req
           · simp [this, hpr, hne]
           · simp [hpr]
-        refine ⟨⟨?_, rfl, hne, ?_, ?_, ?_⟩, by simp⟩
-        · simp [LbMon.flag, g.ok, hlt, g.created, hl, kindOk, hst]
+        refine ⟨⟨?_, rfl, hne, ?_, ?_, ?_, ?_⟩, by simp⟩
+        · simp [LbMon.flag, g.ok, hlt, g.created, hl, kindOk, hst, g.results]
         · simp [LbMon.flag, g.created]
+        · simp [LbMon.flag, g.results]
         · intro h; cases h
         · intro _ p hpm
           simp only [LbMon.flag, List.mem_cons] at hpm
@@ -183,6 +196,9 @@ theorem lbStep_rr_picked {s : LbSt} (hk : s.kind = .rr) (hn : 1 ≤ s.rr.n) (hw 
   have hsn : ¬ s.rr.n = 0 := by omega
   cases op with
   | call req => simp [lbStep, hk, pickedBackends]
+  | setResult b k =>
+    simp only [lbStep]
+    split <;> simp [hk, pickedBackends]
   | drop id =>
     simp only [lbStep]
     cases hl : lookup id s.pending <;> simp [hk, pickedBackends]
@@ -219,6 +235,9 @@ theorem lbStep_hash_picked {s : LbSt} (hk : s.kind = .hash) (op : LbOp) :
       b = verifHash s.hseed req % s.rr.n ∧ b < s.rr.n ∧ lookup id s.pending = some req := by
   cases op with
   | call req => simp [lbStep, hk]
+  | setResult b k =>
+    simp only [lbStep]
+    split <;> simp [hk]
   | drop id =>
     simp only [lbStep]
     cases hl : lookup id s.pending <;> simp [hk]
@@ -230,7 +249,8 @@ theorem lbStep_hash_picked {s : LbSt} (hk : s.kind = .hash) (op : LbOp) :
       by_cases hsn : s.rr.n = 0
       · simp [pickBackend, hk, chIndex, hsn]
       · have : verifHash s.hseed req % s.rr.n < s.rr.n := Nat.mod_lt _ (by omega)
-        simp only [pickBackend, hk, chIndex, hsn, ↓reduceIte, List.mem_singleton, LbObs.picked.injEq]
+        simp only [pickBackend, hk, chIndex, hsn, ↓reduceIte, List.mem_cons, LbObs.picked.injEq,
+          List.mem_nil_iff, or_false, reduceCtorEq]
         refine ⟨trivial, trivial, trivial, ?_⟩
         rintro id' b req' ⟨rfl, rfl, rfl⟩
         exact ⟨rfl, this, hl⟩
@@ -251,14 +271,14 @@ theorem lbRun_hash_picked (ops : List LbOp) : ∀ (s : LbSt), s.kind = .hash →
 
 /-! ## Retry -/
 
-theorem retryLoop_spec {Req Res : Type} (policy : Res → Nat → Bool) (req : Req) :
+theorem retryLoop_spec {Ctx Req Res : Type} (policy : Res → Nat → Bool) (ctx : Ctx) (req : Req) :
     ∀ (rs : List Res) (i k : Nat) (r : Res), rs[k]? = some r →
       (∀ j rj, j < k → rs[j]? = some rj → policy rj (i + j) = true) → policy r (i + k) = false →
-      (retryLoop policy req i rs).2 = some r ∧
-      (retryLoop policy req i rs).1.map (·.attempt) = List.range' i (k + 1) ∧
-      (retryLoop policy req i rs).1.map (·.result) = rs.take (k + 1) ∧
-      (retryLoop policy req i rs).1.map (·.retried) = List.replicate k true ++ [false] ∧
-      (∀ a ∈ (retryLoop policy req i rs).1, a.req = req) := by
+      (retryLoop policy ctx req i rs).2 = some r ∧
+      (retryLoop policy ctx req i rs).1.map (·.attempt) = List.range' i (k + 1) ∧
+      (retryLoop policy ctx req i rs).1.map (·.result) = rs.take (k + 1) ∧
+      (retryLoop policy ctx req i rs).1.map (·.retried) = List.replicate k true ++ [false] ∧
+      (∀ a ∈ (retryLoop policy ctx req i rs).1, a.req = req) := by
   intro rs
   induction rs with
   | nil => intro i k r h; simp at h
@@ -288,11 +308,11 @@ theorem retryLoop_spec {Req Res : Type} (policy : Res → Nat → Bool) (req : R
         · rfl
         · exact h5 a ha
 
-theorem retryLoop_never {Req Res : Type} (policy : Res → Nat → Bool) (req : Req) :
+theorem retryLoop_never {Ctx Req Res : Type} (policy : Res → Nat → Bool) (ctx : Ctx) (req : Req) :
     ∀ (rs : List Res) (i : Nat), (∀ j rj, rs[j]? = some rj → policy rj (i + j) = true) →
-      (retryLoop policy req i rs).2 = none ∧
-      (retryLoop policy req i rs).1.map (·.attempt) = List.range' i rs.length ∧
-      (retryLoop policy req i rs).1.map (·.result) = rs := by
+      (retryLoop policy ctx req i rs).2 = none ∧
+      (retryLoop policy ctx req i rs).1.map (·.attempt) = List.range' i rs.length ∧
+      (retryLoop policy ctx req i rs).1.map (·.result) = rs := by
   intro rs
   induction rs with
   | nil => intro i _; simp [retryLoop]
@@ -305,8 +325,8 @@ theorem retryLoop_never {Req Res : Type} (policy : Res → Nat → Bool) (req : 
     simp only [retryLoop, h0, ↓reduceIte, List.map_cons, List.length_cons, List.range'_succ]
     simp [this]
 
-theorem retryLoop_length_le {Req Res : Type} (policy : Res → Nat → Bool) (req : Req) :
-    ∀ (rs : List Res) (i : Nat), (retryLoop policy req i rs).1.length ≤ rs.length := by
+theorem retryLoop_length_le {Ctx Req Res : Type} (policy : Res → Nat → Bool) (ctx : Ctx) (req : Req) :
+    ∀ (rs : List Res) (i : Nat), (retryLoop policy ctx req i rs).1.length ≤ rs.length := by
   intro rs
   induction rs with
   | nil => intro i; simp [retryLoop]
@@ -317,38 +337,91 @@ theorem retryLoop_length_le {Req Res : Type} (policy : Res → Nat → Bool) (re
     · have := ih (i + 1); simp; omega
     · simp
 
-theorem monRt_loop (policy : Res → Nat → Bool) (q : Nat) :
-    ∀ (rs : List Res) (i : Nat) (m : RtMon), m.ok = true → m.phase = .wantBackend q i →
-      ((flatObs (retryLoop policy q i rs).1 ++ callTail q (retryLoop policy q i rs).2).foldl monRtStep m).ok = true ∧
-      ((flatObs (retryLoop policy q i rs).1 ++ callTail q (retryLoop policy q i rs).2).foldl monRtStep m).phase = .idle := by
+/-- Every attempt of the loop is made with the caller's context and request, unconditionally (any policy,
+any results, also when the call never returns), and attempts are numbered consecutively. -/
+theorem retryLoop_same {Ctx Req Res : Type} (policy : Res → Nat → Bool) (ctx : Ctx) (req : Req) :
+    ∀ (rs : List Res) (i : Nat),
+      (∀ a ∈ (retryLoop policy ctx req i rs).1, a.ctx = ctx ∧ a.req = req) ∧
+      (retryLoop policy ctx req i rs).1.map (·.attempt) = List.range' i (retryLoop policy ctx req i rs).1.length := by
+  intro rs
+  induction rs with
+  | nil => intro i; simp [retryLoop]
+  | cons r0 rs ih =>
+    intro i
+    by_cases h0 : policy r0 i = true
+    · obtain ⟨h1, h2⟩ := ih (i + 1)
+      simp only [retryLoop, h0, ↓reduceIte, List.mem_cons, List.map_cons, List.length_cons, List.range'_succ]
+      refine ⟨?_, by rw [h2]⟩
+      rintro a (rfl | ha)
+      · exact ⟨rfl, rfl⟩
+      · exact h1 a ha
+    · simp [retryLoop, h0]
+
+/-- The attempts as the mock backend records them: `(attempt number, time, context)`. -/
+def attemptRecords : List RtObs → List (Nat × Nat × RtCtx)
+  | [] => []
+  | .attempt i now c :: l => (i, now, c) :: attemptRecords l
+  | _ :: l => attemptRecords l
+
+theorem attemptRecords_append (a b : List RtObs) :
+    attemptRecords (a ++ b) = attemptRecords a ++ attemptRecords b := by
+  induction a with
+  | nil => rfl
+  | cons o a ih => cases o <;> simp [attemptRecords, ih]
+
+theorem flatObs_records (ctx : RtCtx) : ∀ (l : List (Attempt RtCtx Nat Res)) (now : Nat) (ds : List Nat),
+    (∀ a ∈ l, a.ctx = ctx) → ∀ rec ∈ attemptRecords (flatObs now ds l), rec.2.2 = ctx := by
+  intro l
+  induction l with
+  | nil => intro now ds _ rec h; simp [flatObs, attemptRecords] at h
+  | cons a l ih =>
+    intro now ds hl rec h
+    simp only [flatObs, attemptObs, List.cons_append, List.nil_append, attemptRecords, List.mem_cons] at h
+    rcases h with rfl | h
+    · exact hl a (by simp)
+    · exact ih _ _ (fun b hb => hl b (by simp [hb])) rec h
+
+theorem monRt_loop (policy : Res → Nat → Bool) (q : Nat) (ctx : RtCtx) :
+    ∀ (rs : List Res) (i now t : Nat) (ds : List Nat) (m : RtMon), m.ok = true → m.phase = .wantBackend q i ctx →
+      ((flatObs now ds (retryLoop policy ctx q i rs).1 ++
+          callTail q (i + (retryLoop policy ctx q i rs).1.length) t ctx (retryLoop policy ctx q i rs).2).foldl monRtStep m).ok = true ∧
+      ((flatObs now ds (retryLoop policy ctx q i rs).1 ++
+          callTail q (i + (retryLoop policy ctx q i rs).1.length) t ctx (retryLoop policy ctx q i rs).2).foldl monRtStep m).phase = .idle := by
   intro rs
   induction rs with
   | nil =>
-    intro i m hok hph
-    simp [retryLoop, flatObs, callTail, monRtStep, hph, hok]
+    intro i now t ds m hok hph
+    simp [retryLoop, flatObs, callTail, monRtStep, RtMon.checkCtx, hph, hok]
   | cons r rs ih =>
-    intro i m hok hph
+    intro i now t ds m hok hph
     by_cases hp : policy r i = true
     · simp only [retryLoop, hp, ↓reduceIte, flatObs, attemptObs, List.cons_append, List.nil_append,
-        List.foldl_cons]
+        List.foldl_cons, List.length_cons]
+      rw [show i + ((retryLoop policy ctx q (i + 1) rs).1.length + 1)
+            = (i + 1) + (retryLoop policy ctx q (i + 1) rs).1.length by omega]
       apply ih
-      · simp [monRtStep, hph, hok]
-      · simp [monRtStep, hph]
-    · simp [retryLoop, hp, flatObs, attemptObs, callTail, monRtStep, hph, hok]
+      · simp [monRtStep, RtMon.checkCtx, hph, hok]
+      · simp [monRtStep, RtMon.checkCtx, hph]
+    · simp [retryLoop, hp, flatObs, attemptObs, callTail, monRtStep, RtMon.checkCtx, hph, hok]
 
 def RtGood (m : RtMon) : Prop := m.ok = true ∧ m.phase = .idle
 
 theorem rtStep_good {m : RtMon} (g : RtGood m) (s : RtSt) (op : RtOp) :
     RtGood ((rtStep s op).2.foldl monRtStep m) := by
   cases op with
-  | result r => simpa [rtStep] using g
+  | result r d => simpa [rtStep] using g
   | decide b => simpa [rtStep] using g
-  | call q =>
-    have h := monRt_loop s.policy.eval q s.results 1 { m with phase := .wantBackend q 1 } g.1 rfl
+  | call q d tid span smp =>
     simp only [rtStep, retryCall, List.cons_append, List.nil_append, List.foldl_cons]
-    have hs : monRtStep m (.start q) = { m with phase := .wantBackend q 1 } := by
+    generalize hctx : ({ deadline := s.now + d, traceId := tid, spanId := span, sampled := smp } : RtCtx) = ctx
+    have hs : monRtStep m (.start q s.now ctx) = { m with phase := .wantBackend q 1 ctx } := by
       simp [monRtStep, g.2]
     rw [hs]
+    have h := monRt_loop s.policy.eval q ctx (s.results.map (·.1)) 1 s.now
+      (s.now + sumTake (retryLoop s.policy.eval ctx q 1 (s.results.map (·.1))).1.length (s.results.map (·.2)))
+      (s.results.map (·.2)) { m with phase := .wantBackend q 1 ctx } g.1 rfl
+    rw [show 1 + (retryLoop s.policy.eval ctx q 1 (s.results.map (·.1))).1.length
+          = (retryLoop s.policy.eval ctx q 1 (s.results.map (·.1))).1.length + 1 by omega] at h
     exact h
 
 theorem rtRun_good (ops : List RtOp) : ∀ (s : RtSt) {m : RtMon}, RtGood m →
